@@ -31,4 +31,5 @@ Extraction "Extract/model.ml"
   order_visits
   op heap run_ops obj_view view
   tv tl_ctor tl_serialize tl_deserialize tl_table block_id_to_bytes block_id_from_bytes
+  boc_input boc_normalize one_from_boc_in slice_one_from_boc_in builder_one_from_boc_in
   order to_boc boc_deserialize deserialize_boc_header s_parse s_decode s_all_cells nodup_trees tree_eqb k_tree.
